@@ -3,6 +3,7 @@ decoder._extract_header / encoder._build_header and the Actisense header word.""
 from vlib import cz, ctuple, run_cases, distinct_count
 
 PROPS_FILES = ["props/C05.v"]
+ALWAYS_SEARCH = True      # the identifier oracle incl. the public encode/decode path is cheap (a few seconds)
 RULE = ("literal cases: boundary identifiers (PDU1/PDU2 edge PF 0xEE..0xF1,0xFF x all priorities x DP 0..3), seeded "
         "random 29-bit and wider identifiers, random/non-canonical build arguments; sweep cases: a digest over a "
         "whole arithmetic progression of identifiers computed by the implementation and by the model; a case is "
@@ -202,7 +203,12 @@ def _public_path(ctx):
             dec.decode_basic_string("2020-01-01-00:00:00.000,2,127250,1,255,8,01,10,27,ff,7f,ff,7f,fd", True)]
     for _ in range(ctx.n(200, 2000)):
         m = rng.choice(msgs)
-        m.source, m.destination, m.priority = rng.getrandbits(8), rng.getrandbits(8), rng.getrandbits(3)
+        # half of the messages repeat (source, priority) of an earlier one with another destination: the encoder object
+        # is long-lived (a gateway client keeps one), nothing it remembers may leak into the next identifier
+        if rng.random() < 0.5:
+            m.source, m.destination, m.priority = rng.choice([1, 2]), rng.choice([255, 0, 36, 40, 7]), rng.choice([3, 6])
+        else:
+            m.source, m.destination, m.priority = rng.getrandbits(8), rng.getrandbits(8), rng.getrandbits(3)
         exp = (m.PGN, m.source, m.destination if m.PGN == 59904 else 255, m.priority)
         for fmt, e, d in (("ebyte", enc.encode_ebyte, dec.decode_tcp), ("usb", enc.encode_usb, dec.decode_usb),
                           ("yd", enc.encode_yacht_devices, lambda b: dec.decode_yacht_devices_string("00:00:00.000 R " + b.decode()))):
